@@ -205,3 +205,43 @@ def o_c14_nav(w, args):
             if list(g.indices()) != inds:
                 return '[navigation/%s-changes-indices] indices() became %s' % (what, list(g.indices()))
     return None
+
+@oracle('c13-lockstep')
+def o_c13_lockstep(w, args):
+    """complexes() yields one detached snapshot per index, in order, and leaves the current index where it
+    was -- also when two iterations advance in step, or when one is left half-way while another runs"""
+    f = w.vars[args[0]]
+    i0 = f.getIndex(); inds = list(f.indices())
+    def fam(c):
+        return sorted(tok(s) for s in c.simplices())
+    want = []
+    for i in inds:
+        g = _copy.deepcopy(f); g.setIndex(i); want.append(fam(g.snap()))
+    try:
+        pairs = list(zip(f.complexes(), f.complexes()))
+    except Exception as e:
+        return '[complexes/lockstep-raises] zip(f.complexes(), f.complexes()): %s: %s' % (type(e).__name__, e)
+    if f.getIndex() != i0:
+        return '[complexes/index-not-restored] after two iterations in step the current index is %r, it was %r' % (f.getIndex(), i0)
+    if len(pairs) != len(inds):
+        return '[complexes/lockstep-count] %d pairs for %d indices' % (len(pairs), len(inds))
+    for k, (a, b) in enumerate(pairs):
+        if fam(a) != want[k] or fam(b) != want[k]:
+            return '[complexes/lockstep-content] at index %r the two iterations yield %s / %s, the snapshot has %s' % (inds[k], fam(a)[:8], fam(b)[:8], want[k][:8])
+    try:
+        it = iter(f.complexes()); first = next(it, None)
+        whole = list(f.complexes())
+        rest = []                       # (stepped with next(): iter() on the library's iterator starts it over)
+        while first is not None:
+            try:
+                rest.append(next(it))
+            except StopIteration:
+                break
+    except Exception as e:
+        return '[complexes/nested-raises] %s: %s' % (type(e).__name__, e)
+    if f.getIndex() != i0:
+        return '[complexes/index-not-restored] after a complete iteration inside a suspended one the current index is %r, it was %r' % (f.getIndex(), i0)
+    got = ([fam(first)] if first is not None else []) + [fam(c) for c in rest]
+    if got != want or [fam(c) for c in whole] != want:
+        return '[complexes/nested-content] a suspended iteration resumed after a complete one yields other snapshots than the indices have'
+    return None
